@@ -55,6 +55,29 @@ def dstOf (k : RKey) : Str × Int := (k.1, k.2.1)
 /-- Destination `d` has a route in `t`. -/
 def covered (t : RTable) (d : Str × Int) : Bool := t.any (fun k => dstOf k == d)
 
+/-! ### which addresses a destination covers (for the step-safety oracle of C14) -/
+
+/-- dotted quad → number -/
+def ipNum (x : Str) : Option Nat :=
+  match (splitChar x '.').mapM (fun w => if w.all isDigit && !w.isEmpty then some (w.foldl (fun n c => n * 10 + (c.toNat - 48)) 0) else none) with
+  | some [a, b, c, d] => if a < 256 && b < 256 && c < 256 && d < 256 then some (((a * 256 + b) * 256 + c) * 256 + d) else none
+  | _ => none
+
+/-- Destination `d` (network address, prefix length) covers address `x`. -/
+def coversAddr (d : Str × Int) (x : Nat) : Bool :=
+  match ipNum d.1 with
+  | some n => let sh := 32 - d.2.toNat; (n >>> sh) == (x >>> sh)
+  | none => false
+
+/-- Some route of the table covers `x` (the kernel then forwards by the longest such prefix). -/
+def routedAddr (t : RTable) (x : Nat) : Bool := t.any fun k => coversAddr (dstOf k) x
+
+/-- A small universe of addresses around the destinations of a table: first, last, the one before and behind. -/
+def addrUniverse (t : RTable) : List Nat :=
+  (t.flatMap fun k => match ipNum k.1 with
+    | some n => let sz := 2 ^ (32 - k.2.1.toNat); [n, n + sz - 1, n + sz, n - 1, n + sz / 2]
+    | none => []).eraseDups
+
 /-- At most one next hop per destination. -/
 def oneHopPerDst (t : RTable) : Prop := ∀ k1 ∈ t, ∀ k2 ∈ t, dstOf k1 = dstOf k2 → k1 = k2
 
